@@ -631,6 +631,30 @@ def run(ctx):
                         ctx.count('tiny-wide')
                         check_accept(ctx, case, spec, f'tiny-{magic}-{size}-{off}')
 
+    # forests: several roots that share nothing, made of tiny cells, written with every size width - fewer references and
+    # fewer data bytes than any single-root bag can have (no "every cell but one is referenced" shortcut is valid)
+    tiny = ['', '1', '0', '11', '1010101', '00000000', '11111111', '101010101']
+    for k in (2, 3, 4, 6):
+        for trial in range(ctx.n(2, 10)):
+            bits = rng.sample(tiny, k) if trial else tiny[:k]
+            nodes = [(G.ORD, b, ()) for b in bits]
+            if trial % 2:
+                nodes.append((G.ORD, '', (0,)))
+            spec = G.spec_dag(nodes)
+            order = list(range(len(nodes)))
+            rng.shuffle(order)
+            order.sort(key=lambda i: -len(nodes[i][2]))          # the parent (if any) before its child
+            roots = [i for i in range(len(nodes)) if not any(i in nodes[j][2] for j in range(len(nodes)))]
+            rng.shuffle(roots)
+            recs = listing(nodes, spec, order)
+            pos = {nid: p_ for p_, nid in enumerate(order)}
+            for size in (1, 2, 3, 4):
+                for off in (1, rng.choice([2, 4, 8])):
+                    fr = dict(magic='g', size=size, off=off, idx=rng.random() < 0.5, crc=rng.random() < 0.5, cache=False, store=[], cflags=[])
+                    case = dict(nodes=nodes, order=order, roots=roots, recs=recs, rpos=[pos[r] for r in roots], fr=fr)
+                    ctx.count('forest-tiny')
+                    check_accept(ctx, case, spec, f'forest-{k}-{size}-{off}')
+
     # stored hashes with every level mask (pruned branch + ordinary ancestors inherit the mask)
     for mask in range(1, 8):
         k = G.popcount(mask)
